@@ -325,13 +325,18 @@ func checkCase(c *Case, count bool) (err error) {
 		f.ServeHTTP(httptest.NewRecorder(), httptest.NewRequest("GET", "http://"+hostOr(host)+"/definitely/not/registered/zz", nil))
 		f.ServeHTTP(httptest.NewRecorder(), httptest.NewRequest("POST", "http://"+hostOr(host)+path, nil))
 		f.ServeHTTP(httptest.NewRecorder(), httptest.NewRequest("OPTIONS", "http://"+hostOr(host)+path, nil))
-		for _, k := range []string{"noroute", "nomethod", "options"} {
+		// the trailing-slash redirect handler, reached right after a request served by a route with its own resolver
+		if _, err := f.Handle("GET", "/zz-c19-redirect/{id}/", handler, fox.WithRedirectTrailingSlash(true), fox.WithClientIPResolver(res(7))); err == nil {
+			f.ServeHTTP(httptest.NewRecorder(), httptest.NewRequest("GET", "http://example.com/zz-c19-redirect/1/", nil))
+			f.ServeHTTP(httptest.NewRecorder(), httptest.NewRequest("GET", "http://example.com/zz-c19-redirect/1", nil))
+		}
+		for _, k := range []string{"noroute", "nomethod", "options", "redirect"} {
 			if v, ok := seen[k]; ok && v != wantIP(g.resolver) {
 				return fmt.Errorf("%sContext.ClientIP inside the %s handler = %s, want %s (the router-wide resolver)", desc, k, v, wantIP(g.resolver))
 			}
 		}
 		if count {
-			for _, k := range []string{"noroute", "nomethod", "options"} {
+			for _, k := range []string{"noroute", "nomethod", "options", "redirect"} {
 				if _, ok := seen[k]; ok {
 					stats.Class("clientip-checked-in:" + k)
 				}
